@@ -135,12 +135,36 @@ def run(rep):
     ev = K.SkelEval(ogp, m, {}, '', None)
     ev.markers = False
     ev.params.append({(q, p['pat']['name']): m.module for p in f['params']})
+    def instantiate(consts):
+        saved = m.module.fields['constants']
+        m.module.fields['constants'] = consts
+        try:
+            return [' '.join(str(ev.tokens(x)).split()) for x in ev.iterable(ev.ev(summ), summ)]
+        finally:
+            m.module.fields['constants'] = saved
     try:
-        got = [' '.join(str(ev.tokens(x)).split()) for x in ev.iterable(ev.ev(summ), summ)]
-    except (Diverge, Unbound) as ex:
-        for r_ in ('C15.literal-row', 'C15.zero-value', 'C15.non-scalar-skipped', 'C15.name-identity'):
-            rep.bad(r_, 'instantiation', where, f'cannot instantiate the constants section on the model constant list: {ex}', undecided=True)
-        return
+        got = instantiate(m.module.fields['constants'])
+    except (Diverge, Unbound) as ex0:
+        # some constant makes the section panic / cannot be evaluated: instantiate constant by constant to say which
+        got = []
+        exp_by = {e[0]: e for e in expected}
+        n_und = 0
+        for c_ in m.module.fields['constants']:
+            cname_ = c_[1].fields['name'][1] if c_[1].fields['name'] else None
+            try:
+                got += instantiate([c_])
+            except Diverge as ex:
+                what = exp_by.get(cname_, (cname_, 'a constant that must be skipped', ''))[1]
+                rep.bad('C15.zero-value' if what.startswith('zero') else 'C15.literal-row', 'panic:' + what.split('(')[0].replace('literal ', '').replace('zero value ', ''), where,
+                        f'the generator panics ({ex}) on a named constant initialised by the {what}: the property requires it to be exported' +
+                        ('' if cname_ in exp_by else ' or skipped') + ', never a panic')
+            except Unbound as ex:
+                n_und += 1
+                rep.bad('C15.literal-row', f'instantiation:{cname_}', where, f'cannot instantiate the constants section for constant `{cname_}`: {ex}', undecided=True)
+        if n_und:
+            for r_ in ('C15.zero-value', 'C15.non-scalar-skipped', 'C15.name-identity'):
+                rep.bad(r_, 'instantiation', where, f'cannot instantiate the constants section on the whole model constant list: {ex0}', undecided=True)
+            return
     squash = lambda s_: s_.replace(' ', '')
     by_name = {}
     for g in got:
